@@ -59,21 +59,26 @@ var vchNames = [2]string{"a", "b"}
 
 // vchCtx is the state of one schedule.
 type vchCtx struct {
-	r      *vrng
-	ct     channeldb.ChannelType
-	ch     [2]*LightningChannel
-	q      [2][]lnwire.Message // q[i]: messages travelling TOWARDS party i
-	chanID lnwire.ChannelID
-	hashID map[[32]byte]int64
-	nHash  int64
-	adds   [][3]int64 // (amt, expiry, hash_id) of earlier adds, for duplicates
-	steps  []map[string]any
-	prev   [2]map[string]any // last emitted dump per party (for "=" compression)
-	abort  string
+	r       *vrng
+	ct      channeldb.ChannelType
+	ch      [2]*LightningChannel
+	q       [2][]lnwire.Message // q[i]: messages travelling TOWARDS party i
+	chanID  lnwire.ChannelID
+	hashID  map[[32]byte]int64
+	nHash   int64
+	adds    [][3]int64 // (amt, expiry, hash_id) of earlier adds, for duplicates
+	steps   []map[string]any
+	prev    [2]map[string]any // last emitted dump per party (for "=" compression)
+	abort   string
 	crash   bool
 	cut     bool
 	freeRev bool
-	nSign   int
+	// noFreshFee (VERIF_CHAN_NO_FRESH_FEE=1): no update_fee while the opener
+	// has never revoked (avoids the known lnd defect
+	// corpus/chan/fresh_fee_restart.json).
+	noFreshFee bool
+	noFee      bool // VERIF_CHAN_FEE=0: no update_fee in the main stream
+	nSign      int
 }
 
 // ---------------------------------------------------------------------------
@@ -109,7 +114,11 @@ func vchClass(err error) string {
 		return "below_min"
 	case errors.Is(err, ErrInvalidHTLCAmt):
 		return "invalid_amt"
-	case errors.As(err, &e1), errors.As(err, &e2), errors.As(err, &e3):
+	case errors.As(err, &e1), errors.As(err, &e2), errors.As(err, &e3),
+		strings.Contains(s, "invalid partial sig"):
+		// (VerifyCommitSig's invalidPartialSigError reaches the caller
+		// unwrapped: errors.As in ReceiveNewCommitment targets the value
+		// type.)
 		return "sig_invalid"
 	case errors.As(err, &e4):
 		return "unknown_htlc"
@@ -243,7 +252,45 @@ func (c *vchCtx) partyDump(lc *LightningChannel) map[string]any {
 		disk["pending_remote_h"] = "err:" + vchClass(err)
 	}
 	d["disk"] = disk
+	// The fee rate of a view is the LAST FeeUpdate of the opener's log in
+	// list order: record whether list order agrees with log-index order.
+	d["own_fee_sorted"] = vchFeeSorted(lc.updateLogs.Local)
+	d["peer_fee_sorted"] = vchFeeSorted(lc.updateLogs.Remote)
+	if vchDebug {
+		d["own_log"] = vchLogDump(lc.updateLogs.Local)
+		d["peer_log"] = vchLogDump(lc.updateLogs.Remote)
+	}
 	return d
+}
+
+func vchFeeSorted(u *updateLog) bool {
+	last, have := uint64(0), false
+	for e := u.Front(); e != nil; e = e.Next() {
+		if e.Value.EntryType != FeeUpdate {
+			continue
+		}
+		if have && e.Value.LogIndex <= last {
+			return false
+		}
+		last, have = e.Value.LogIndex, true
+	}
+	return true
+}
+
+var vchDebug = os.Getenv("VERIF_CHAN_DEBUG") != ""
+
+// vchLogDump (VERIF_CHAN_DEBUG=1 only): [entry type, log index, htlc index,
+// parent index, amount, addHeight local, remote, removeHeight local, remote].
+func vchLogDump(u *updateLog) [][]uint64 {
+	out := [][]uint64{}
+	for e := u.Front(); e != nil; e = e.Next() {
+		pd := e.Value
+		out = append(out, []uint64{uint64(pd.EntryType), pd.LogIndex,
+			pd.HtlcIndex, pd.ParentIndex, uint64(pd.Amount),
+			pd.addCommitHeights.Local, pd.addCommitHeights.Remote,
+			pd.removeCommitHeights.Local, pd.removeCommitHeights.Remote})
+	}
+	return out
 }
 
 // record appends a step with the dumps of both parties.  A party whose dump
@@ -979,7 +1026,9 @@ func (c *vchCtx) genMain() {
 			add(w, func() { c.doDeliver(p) })
 		}
 	}
-	add(3, func() { c.doFee(0, c.pickFee(), false) })
+	if !(c.noFreshFee && c.ch[0].currentHeight == 0) && !c.noFee {
+		add(3, func() { c.doFee(0, c.pickFee(), false) })
+	}
 	total := 0
 	for _, x := range ch {
 		total += x.w
@@ -1275,7 +1324,9 @@ func TestVerifChan(t *testing.T) {
 				),
 				hashID: map[[32]byte]int64{},
 				crash:  crashOn, cut: cutOn,
-				freeRev: vEnvInt("VERIF_CHAN_FREE_REV", 0) != 0,
+				freeRev:    vEnvInt("VERIF_CHAN_FREE_REV", 0) != 0,
+				noFreshFee: vEnvInt("VERIF_CHAN_NO_FRESH_FEE", 0) != 0,
+				noFee:      vEnvInt("VERIF_CHAN_FEE", 1) == 0,
 			}
 			steps := maxSteps
 			if r.intn(6) == 0 {
